@@ -25,13 +25,14 @@ func registerC10() {
 		Rule: "family frames: every intact device frame and PRNG model files (record areas of 0-3 bytes after file_id up to sizes straddling 4096 and 8192) are served by a " +
 			"counting reader whose backing store is frame || 64 poison bytes || another valid file, under 14 chunkers (1 byte, odd sizes, 4095/4096/4097/5000, PRNG sizes, " +
 			"greedy readers that always fill the buffer, final chunk with io.EOF, occasional (0,nil), yields); for each of the six entry points: bytes delivered <= frame " +
-			"length, == header+data+2 after a successful Decode/CheckIntegrity, result equal to the whole-buffer result; the same frames also through bufio readers (16 and 4096 bytes), bytes.Buffer, strings.Reader behind io.LimitReader, io.MultiReader a reader offering ReadByte/UnreadByte/Seek/ReadAt/WriteTo/Len with short reads, and *os.File (a regular file on disk, and a pipe); family chains: concatenations of 1-5 files in PRNG " +
+			"length, == header+data+2 after a successful Decode/CheckIntegrity, result equal to the whole-buffer result; the same frames also through bufio readers (16 and 4096 bytes), bytes.Buffer, strings.Reader behind io.LimitReader, io.MultiReader a reader offering ReadByte/UnreadByte/Seek/ReadAt/WriteTo/Len with short reads, and *os.File (a regular file on disk, and a pipe); family huge-frames: frames of 6, 9 and 17 MiB followed by poison bytes and another file, same consumption rules; family chains: concatenations of 1-5 files in PRNG " +
 			"order: DecodeChained returns one File per input equal to the solo decode, DecodeHeader / DecodeHeaderAndFileID report Decode's header and file_id. A case is one " +
 			"(file, chunker) pair or one chain; non-trivial: the call succeeded and consumption was measured; distinct by (input digest, chunker)",
 		Assume:        []string{"record.distance of records whose compressed_speed_distance expands is excluded from solo-vs-chained comparison (known finding F5, decided in C18)"},
 		MinNontrivial: 300,
 		Families: []lib.Family{
 			{Name: "frames", N: func(t string) uint64 { return tierN(t, 120*14, 2400*14) }, Run: c10Frame},
+			{Name: "huge-frames", N: func(t string) uint64 { return 3 }, Run: c10Huge},
 			{Name: "chains", N: func(t string) uint64 { return tierN(t, 300, 6000) }, Run: c10Chain},
 		},
 	})
@@ -127,6 +128,84 @@ func distanceSkip(f *fit.File) func(slot string, g uint16, idx int, si int) bool
 	return func(slot string, g uint16, idx int, si int) bool {
 		return g == ref.MesgRecord && slot == "Records" && dist != nil && si == dist.Sindex && exp[idx]
 	}
+}
+
+// hugePlan builds a well-formed activity file of about mib MiB: records of an unknown message
+// with 255 fields of 255 bytes (65 KB each, skipped by the decoder) with a known record message
+// after every tenth of them; extra adds that many small records at the end.
+func hugePlan(rng *lib.Rand, mib int, extra int) *ref.Plan {
+	plan := &ref.Plan{HeaderSize: 14, Proto: 0x20, ProfVer: 2115}
+	plan.Records = append(plan.Records,
+		ref.Record{IsDef: true, Local: 0, Global: 0, Fields: []ref.FieldDef{{Num: 0, Size: 1, Base: 0}}},
+		ref.Record{Local: 0, Data: [][]byte{{4}}})
+	big := ref.Record{IsDef: true, Local: 1, Global: 0xFF00}
+	for k := 0; k < 255; k++ {
+		big.Fields = append(big.Fields, ref.FieldDef{Num: byte(k), Size: 255, Base: 0x0D})
+	}
+	plan.Records = append(plan.Records, big,
+		ref.Record{IsDef: true, Local: 2, Global: 20, Fields: []ref.FieldDef{{Num: 253, Size: 4, Base: 0x86}, {Num: 3, Size: 1, Base: 0x02}}})
+	blob := rng.Bytes(255)
+	n := mib << 20 / (255*255 + 1)
+	for k := 0; k <= n; k++ {
+		data := make([][]byte, 255)
+		for i := range data {
+			data[i] = blob
+		}
+		plan.Records = append(plan.Records, ref.Record{Local: 1, Data: data})
+		if k%10 == 9 {
+			ts := make([]byte, 4)
+			ref.Put(ts, uint64(0x30000000+k), 4, 0)
+			plan.Records = append(plan.Records, ref.Record{Local: 2, Data: [][]byte{ts, {byte(60 + k%100)}}})
+		}
+	}
+	for k := 0; k < extra; k++ {
+		ts := make([]byte, 4)
+		ref.Put(ts, uint64(0x31000000+k), 4, 0)
+		plan.Records = append(plan.Records, ref.Record{Local: 2, Data: [][]byte{ts, {byte(k)}}})
+	}
+	return plan
+}
+
+// c10Huge: frames of several MiB (6, 9 and 17 MiB, sizes that are no multiple of any power-of-two
+// block) followed by poison bytes and another file: no entry point reads past the frame, and a
+// successful Decode / CheckIntegrity consumes exactly the frame.
+func c10Huge(c *lib.Ctx, idx uint64) {
+	rng := lib.NewRand("C10.huge", idx)
+	frame := hugePlan(rng, []int{6, 9, 17}[idx], 3+int(idx)).Bytes()
+	other, _ := framePool(31)
+	store := append(append(append([]byte{}, frame...), poison...), other...)
+	c.SetInflight(frame[:4096])
+	for ci, ch := range []lib.Chunker{{Kind: "whole"}, {Kind: "fixed", Size: 65536}, {Kind: "greedy", EOFWithData: true}, {Kind: "fixed", Size: 4097}} {
+		for _, ep := range lib.EntryPoints {
+			if ep == "DecodeChained" || ci == 3 && ep != "CheckIntegrity" {
+				continue
+			}
+			r := &lib.Reader{Data: store, Limit: len(store), Ch: ch}
+			var res lib.CallResult
+			o := lib.Guard(func() { res = lib.Call(ep, r) })
+			c.Eval()
+			if o.Panicked || o.Hang {
+				c.Violation(frame[:4096], "%s with chunker %s panicked/hung on a frame of %d bytes: %s", ep, ch, len(frame), o.Panic)
+				return
+			}
+			if r.Pos > len(frame) {
+				c.Violation(frame[:4096], "%s with chunker %s consumed %d bytes, %d past the end of a frame of %d bytes", ep, ch, r.Pos, r.Pos-len(frame), len(frame))
+				return
+			}
+			if ep == "Decode" || ep == "CheckIntegrity" {
+				if res.Err != nil {
+					c.Violation(frame[:4096], "%s with chunker %s rejects a well-formed file of %d bytes: %v", ep, ch, len(frame), res.Err)
+					return
+				}
+				if r.Pos != len(frame) {
+					c.Violation(frame[:4096], "%s with chunker %s succeeded but consumed %d bytes of a frame of %d", ep, ch, r.Pos, len(frame))
+					return
+				}
+			}
+		}
+	}
+	c.Count("huge_frame_bytes", int64(len(frame)))
+	c.Nontrivial(frame[:4096], []byte{byte(idx)})
 }
 
 func c10Frame(c *lib.Ctx, idx uint64) {
